@@ -650,8 +650,9 @@ func (obj *Hmm) PosteriorMarginals(data HmmDataRecord) ([]Vector, error) {
 /* -------------------------------------------------------------------------- */
 
 func (obj *Hmm) GetParameters() Vector {
-  p := Vector(obj.Pi)
-  p  = p.AppendVector(obj.Tr.AsVector())
+  // the result must not share elements with the model
+  p := obj.Pi.CloneVector()
+  p  = p.AppendVector(obj.Tr.AsVector().CloneVector())
   return p
 }
 
